@@ -57,6 +57,10 @@ ASSUME LayoutLaws ==
 ASSUME EveryTerminator ==
   \A t \in {"LF", "CRLF", "CR", "LFCR"} : \E l \in AllLayouts : \E i \in 1..3 : TermOf(l.term, i) = t
 ASSUME Cardinality(AllLayouts) = 7 * 6 * 2 * 2 * 4 /\ NL = Cardinality(AllLayouts)
+ASSUME BoundaryFamily ==
+  /\ Cardinality(BoundaryLayouts) = 4 * 6 * 2
+  /\ \A at \in {1, 6, 7, 12}, t \in TermStyles, b \in BOOLEAN : \E l \in BoundaryLayouts : l.at = at /\ l.term = t /\ l.last = b
+  /\ ExtraFixed \subseteq AllLayouts /\ \E l \in ExtraFixed : l.at = 6 /\ l.term = "CRLF"
 ASSUME RegressionFamily ==
   /\ \E l \in FixedLayouts : l.term = "CRLF" /\ l.at > 1 /\ ~l.spread
   /\ \E l \in FixedLayouts : l.term = "CRLF" /\ l.at > 1 /\ l.spread
